@@ -20,7 +20,7 @@ PID = "C09"
 def _work(args):
     seed, gi, quick = args
     rng = random.Random(seed * 100019 + gi)
-    grp = gen.make_group(rng, gi, groups=("core", "control", "validity"), modes=True)
+    grp = gen.make_group(rng, gi, groups=("core", "control", "validity", "print"), modes=True)
     members = grp["members"]
     records = grp["records"]
     if not records:
@@ -49,6 +49,15 @@ def _work(args):
         members = members[:pos] + [idle] + members[pos:]
         idents = idents[:pos] + ["idle"] + idents[pos:]
         texts = texts[:pos] + ["~ id: idle run-mode: no-run ~ $data[*][ yes() ]"] + texts[pos:]
+    # a member that prints to a named printout only (print's second argument): printouts.txt has that section and no default one
+    if rng.random() < 0.35:
+        cfg = dict(members[0]["cfg"])
+        cfg.update({"noRun": False, "noMatches": False, "keepUnmatched": False})
+        aud = {"prog": {"scan": lang.scan("all"), "comps": [lang.fn("yes")], "initVars": [], "meta": []}, "cfg": cfg}
+        pos = rng.randint(0, len(members))
+        members = members[:pos] + [aud] + members[pos:]
+        idents = idents[:pos] + ["aud"] + idents[pos:]
+        texts = texts[:pos] + ['~ id: aud ~ $data[*][ print("seen $.csvpath.line_number", "audit") ' + rng.choice(["", 'print.once("second stream", "errs") '])  + "]"] + texts[pos:]
     methods = list(pharness.METHODS)
     if quick:
         methods = rng.sample(methods, 3)
